@@ -192,6 +192,9 @@ func (c *Canon) of(v ssa.Value) string {
 	case *ssa.Extract:
 		t := x.Tuple
 		if call, ok := t.(*ssa.Call); ok {
+			if callee := call.Common().StaticCallee(); callee != nil && RoleFlagResults[callee] && x.Index == 0 {
+				return c.Of(call)
+			}
 			if callee := call.Common().StaticCallee(); callee != nil && c.Inline && c.inlinable(callee) && len(c.env) < 6 {
 				ret := callee.Blocks[0].Instrs[len(callee.Blocks[0].Instrs)-1].(*ssa.Return)
 				if x.Index < len(ret.Results) {
